@@ -1,6 +1,7 @@
 import Driver.Util
 import Driver.Lru
 import Driver.Registry
+import Driver.Bind
 open Lean
 
 def dispatch (j : Json) : Except String Json := do
@@ -9,6 +10,7 @@ def dispatch (j : Json) : Except String Json := do
   | "lru" => Driver.LruD.handle j
   | "tmpl" => Driver.LruD.handleTmpl j
   | "registry" => Driver.RegistryD.handle j
+  | "bind" => Driver.BindD.handle j
   | "ping" => pure (Json.mkObj [("pong", Json.bool true)])
   | _ => throw s!"unknown op {op}"
 
